@@ -1,0 +1,60 @@
+//go:build verif
+
+package runner
+
+import (
+	"runtime"
+	"sync"
+	"sync/atomic"
+)
+
+// VerifDecrementStress exercises baseAction.DecrementPending, the one synchronisation point between the
+// handlers of an action's dependencies: in every round the counter is set to k and k goroutines, released
+// together by a spin barrier, decrement it once each. Exactly one of them must be told that it was the last.
+// It returns the number of rounds in which that was not the case and the results of the first such round.
+func VerifDecrementStress(rounds, k int) (bad int, first []bool) {
+	act := &packageAction{}
+	var a action = act
+	res := make([]bool, k)
+	var phase, done int32
+	var wg sync.WaitGroup
+	for i := 0; i < k; i++ {
+		wg.Add(1)
+		go func(i int) {
+			defer wg.Done()
+			for r := 1; r <= rounds; r++ {
+				for n := 0; atomic.LoadInt32(&phase) != int32(r); n++ {
+					if n&1023 == 1023 {
+						runtime.Gosched()
+					}
+				}
+				res[i] = a.DecrementPending()
+				atomic.AddInt32(&done, 1)
+			}
+		}(i)
+	}
+	for r := 1; r <= rounds; r++ {
+		atomic.StoreUint32(&act.pending, uint32(k))
+		atomic.StoreInt32(&done, 0)
+		atomic.StoreInt32(&phase, int32(r))
+		for n := 0; atomic.LoadInt32(&done) != int32(k); n++ {
+			if n&1023 == 1023 {
+				runtime.Gosched()
+			}
+		}
+		last := 0
+		for _, b := range res {
+			if b {
+				last++
+			}
+		}
+		if last != 1 {
+			if bad == 0 {
+				first = append([]bool(nil), res...)
+			}
+			bad++
+		}
+	}
+	wg.Wait()
+	return bad, first
+}
